@@ -87,7 +87,7 @@ package jid
 //@   ensures[C11] forall k int :: 0 <= k && k < len(result.data) ==> result.data[k] == j.data[j.locallen+k]
 
 //@ func (JID).Equal
-//@   ensures[C11] result <==> j.locallen == j2.locallen && j.domainlen == j2.domainlen && len(j.data) == len(j2.data) && (forall k int :: 0 <= k && k < len(j.data) ==> j.data[k] == j2.data[k])
+//@   ensures[C11,C13] result <==> j.locallen == j2.locallen && j.domainlen == j2.domainlen && len(j.data) == len(j2.data) && (forall k int :: 0 <= k && k < len(j.data) ==> j.data[k] == j2.data[k])
 //@   loop 1
 //@     invariant 0 <= i && i <= len(j.data) && len(j.data) == len(j2.data)
 //@     invariant forall k int :: 0 <= k && k < i ==> j.data[k] == j2.data[k]
